@@ -71,8 +71,8 @@ PROPS = {
         'level': 'fault_enumeration',
         'builds': {'default': {}},
         'tiers': {
-            'quick': {'runs': 1500, 'params': {'max_nodes': 30, 'all_offsets_upto': 512}, 'per_run_timeout': 5.0},
-            'thorough': {'runs': 80000, 'params': {'max_nodes': 40, 'all_offsets_upto': 8192}, 'per_run_timeout': 20.0, 'shrink_budget_s': 300},
+            'quick': {'chunk': 64, 'runs': 1500, 'params': {'max_nodes': 30, 'all_offsets_upto': 512}, 'per_run_timeout': 5.0},
+            'thorough': {'chunk': 64, 'runs': 80000, 'params': {'max_nodes': 40, 'all_offsets_upto': 8192}, 'per_run_timeout': 20.0, 'shrink_budget_s': 300},
         },
         'rule': 'one run = one sampled component tree (spec) x knobs (buffer size, pool policy, writer kind, sticky/one-shot fault, caller-owned buffer); per run EVERY '
                 'expression / nested-component fault point, pre-cancelled context, cancellation at every fault point, and writer faults (short, zero, short-without-error) '
@@ -80,7 +80,7 @@ PROPS = {
                 'rendered once, followed by a clean render on the same pools; evaluations = faulted renders; distinct = (spec hash, knobs); non-trivial = at least one fault fired',
         'real': RENDER_REAL,
         'stubbed': ['io.Writer (fault at byte offset)', 'expression bodies', 'context cancellation', 'sync.Pool (simsync.Pool: LIFO / random / fresh / mixed)'],
-        'assumptions': ['simsync.Pool may return any released object or a new one: a superset of sync.Pool behaviours', 'writers obey nothing beyond io.Writer',
+        'assumptions': ['simsync.Pool may return any released object or a new one: a superset of sync.Pool behaviours', 'writers obey nothing beyond io.Writer', 'a worker process executes one block of 64 runs with one render-buffer size (the size varies between blocks)',
                         'programs are sampled; fault points are enumerated per program'],
     },
     'C11': {
@@ -88,8 +88,8 @@ PROPS = {
         'level': 'fault_enumeration',
         'builds': {'default': {}},
         'tiers': {
-            'quick': {'runs': 600, 'params': {'max_chunks': 6}, 'per_run_timeout': 5.0},
-            'thorough': {'runs': 40000, 'params': {'max_chunks': 10}, 'per_run_timeout': 10.0, 'shrink_budget_s': 300},
+            'quick': {'chunk': 64, 'runs': 600, 'params': {'max_chunks': 6}, 'per_run_timeout': 5.0},
+            'thorough': {'chunk': 64, 'runs': 40000, 'params': {'max_chunks': 10}, 'per_run_timeout': 10.0, 'shrink_budget_s': 300},
         },
         'rule': 'one run = one sampled component (0..N chunks of sizes 0 B..20 KB, hand-written or generated root, optional generated tree in front) x ALL 150 handler '
                 'configurations (status unset/200/201/404/500 x content type default/2 custom x error handler unset/status+body/body only/nothing/headers+status+body x '
@@ -104,8 +104,8 @@ PROPS = {
         'level': 'exploration',
         'builds': {'default': {}},
         'tiers': {
-            'quick': {'runs': 6000, 'params': {'max_nodes': 30, 'max_contexts': 4, 'max_steps': 2000}, 'per_run_timeout': 5.0},
-            'thorough': {'runs': 1500000, 'params': {'max_nodes': 60, 'max_contexts': 5, 'max_steps': 5000}, 'per_run_timeout': 10.0, 'shrink_budget_s': 300},
+            'quick': {'chunk': 64, 'runs': 6000, 'params': {'max_nodes': 30, 'max_contexts': 4, 'max_steps': 2000}, 'per_run_timeout': 5.0},
+            'thorough': {'chunk': 64, 'runs': 1500000, 'params': {'max_nodes': 60, 'max_contexts': 5, 'max_steps': 5000}, 'per_run_timeout': 10.0, 'shrink_budget_s': 300},
         },
         'rule': 'one run = a finite universe (2-7 script values over 5 script templates incl. JSFuncCall, 2-5 css components, 1-3 once handles, some created WithComponent) and '
                 '1-4 contexts, each hosting 1-3 sequential renders of tape-drawn use trees (script component, on* attributes single/double/conditional/hx-on, class expressions '
@@ -123,8 +123,8 @@ PROPS = {
         'level': 'exploration',
         'builds': {'default': {}},
         'tiers': {
-            'quick': {'runs': 8000, 'params': {'max_nodes': 40, 'max_contexts': 3, 'max_steps': 2000}, 'per_run_timeout': 5.0},
-            'thorough': {'runs': 1500000, 'params': {'max_nodes': 80, 'max_contexts': 4, 'max_steps': 5000}, 'per_run_timeout': 10.0, 'shrink_budget_s': 300},
+            'quick': {'chunk': 64, 'runs': 8000, 'params': {'max_nodes': 40, 'max_contexts': 3, 'max_steps': 2000}, 'per_run_timeout': 5.0},
+            'thorough': {'chunk': 64, 'runs': 1500000, 'params': {'max_nodes': 80, 'max_contexts': 4, 'max_steps': 5000}, 'per_run_timeout': 10.0, 'shrink_budget_s': 300},
         },
         'rule': 'one run = 1-3 contexts (tasks interleaved at writer seams), each rendering 1-2 tape-drawn call trees into one writer: calls with / without block x callees '
                 '{slot, slot twice, no slot, pass-down, slot-around, hand-written that renders children 0-2 times, once handle, templ.Flush, writer-swapping wrapper, '
@@ -145,8 +145,8 @@ PROPS = {
             {'name': 'race', 'build': 'race', 'params': {'burst': 1}, 'env': {'GORACE': 'halt_on_error=1'}, 'no_guard': True},
         ],
         'tiers': {
-            'quick': {'runs': 4000, 'stage_runs': {'race': 1500}, 'params': {'max_nodes': 10, 'max_tasks': 6, 'max_renders': 4, 'max_steps': 1500}, 'per_run_timeout': 5.0},
-            'thorough': {'runs': 600000, 'stage_runs': {'race': 100000}, 'params': {'max_nodes': 16, 'max_tasks': 8, 'max_renders': 5, 'max_steps': 4000}, 'per_run_timeout': 10.0, 'shrink_budget_s': 300},
+            'quick': {'chunk': 64, 'runs': 4000, 'stage_runs': {'race': 1500}, 'params': {'max_nodes': 10, 'max_tasks': 6, 'max_renders': 4, 'max_steps': 1500}, 'per_run_timeout': 5.0},
+            'thorough': {'chunk': 64, 'runs': 600000, 'stage_runs': {'race': 100000}, 'params': {'max_nodes': 16, 'max_tasks': 8, 'max_renders': 5, 'max_steps': 4000}, 'per_run_timeout': 10.0, 'shrink_budget_s': 300},
         },
         'rule': 'one run = N tasks x M renders (own component, shared component value, or templ.Handler request) over shared once handles, pools and (dev-mode runs) the '
                 'text-file cache, parked at every writer Write/Flush and expression evaluation; stage main: one task released at a time by the tape on the adversarial pool; '
